@@ -221,8 +221,10 @@ def build_axis(P, paxes):
     return SumAxis(P['sum'][0], build_axis(P['sum'][1], paxes), P['sum'][2])
 
 
-def build_pt(spec):
-    """fggs.indices.PatternedTensor denoted by the spec (physical possibly a stride-0 expanded view)."""
+def build_pt(spec, reuse=None, out_paxes=None):
+    """fggs.indices.PatternedTensor denoted by the spec (physical possibly a stride-0 expanded view).
+    reuse: {physical axis position -> PhysicalAxis object of another tensor} (operands that share axes);
+    out_paxes: list that receives the PhysicalAxis objects in spec order."""
     import torch
     from fggs.indices import PatternedTensor, PhysicalAxis
     sizes = spec['paxes']
@@ -230,7 +232,9 @@ def build_pt(spec):
     t = torch.tensor(spec['phys'], dtype=torch_dtype(spec['dtype'])).reshape(base)
     if spec['bcast']:
         t = t.expand(sizes)
-    paxes = tuple(PhysicalAxis(n) for n in sizes)
+    paxes = tuple((reuse or {}).get(i) or PhysicalAxis(n) for i, n in enumerate(sizes))
+    assert all(k.numel() == n for k, n in zip(paxes, sizes))
+    if out_paxes is not None: out_paxes.extend(paxes)
     vaxes = tuple(build_axis(P, paxes) for P in spec['vaxes'])
     return PatternedTensor(t, paxes, vaxes, spec['default'])
 
